@@ -233,6 +233,16 @@ def split_trace(trace, nshards, boundary=lambda e: e.get("ev") in ("Begin",)):
     if not starts or starts[0] != 0:
         starts = [0] + starts
     nshards = max(1, min(nshards, len(starts)))
+    if len(starts) == len(lines) and nshards > 1:
+        # every event stands alone: deal them out round-robin, so that a run of expensive events (e.g. the large
+        # random graphs at the end of the chordal trace) is spread over all TLC processes
+        out = []
+        for k in range(nshards):
+            pth = f"{trace}.shard{k}"
+            with open(pth, "w") as f:
+                f.writelines(lines[k::nshards])
+            out.append((pth, 0))
+        return out
     per = (len(lines) + nshards - 1) // nshards
     shards, cur = [], 0
     cuts = [0]
